@@ -153,7 +153,7 @@ macro_rules! usage_arm {
         #[cfg_attr(kani, kani::stub(crate::fixtures::FixtureDatabase::is_fixture_imported_in_file, crate::world::stub_is_imported))]
         #[cfg_attr(kani, kani::stub(core::unicode::unicode_data::alphabetic::lookup, crate::stubs::uni_alphabetic))]
         #[cfg_attr(kani, kani::stub(core::unicode::unicode_data::n::lookup, crate::stubs::uni_numeric))]
-        pub fn $id() { usage_cols($line, $s, $s + 3, &[0, $s - 2, $s - 1, $s, $s + 1, $s + 2, $s + 3, $s + 4, 200]) }
+        pub fn $id() { let s: usize = $s; usage_cols($line, s, s + 3, &[0, (s - 2) as u32, (s - 1) as u32, s as u32, (s + 1) as u32, (s + 2) as u32, (s + 3) as u32, (s + 4) as u32, 200]) }
     };
 }
 /// @harness id=c01_use_pytestmark props=C01 unwind=60 mem=8 cap=1200 gates=worlds
